@@ -3,6 +3,7 @@
 
 #include <unifex/canary.hpp>
 #include <unifex/cancellable.hpp>
+#include <unifex/create_basic_sender.hpp>
 #include <unifex/detach_on_cancel.hpp>
 #include <unifex/inplace_stop_token.hpp>
 #include <unifex/receiver_concepts.hpp>
@@ -10,6 +11,8 @@
 #include <unifex/stop_on_request.hpp>
 
 #include <functional>
+#include <sys/syscall.h>
+#include <unistd.h>
 #include <memory>
 
 using namespace vf::mt;
@@ -554,6 +557,182 @@ void canary_round(rng& r, helper& h1, kstats& st) {
   ++st.rounds;
 }
 
+// ---------------------------------------------------------------------------
+// create_basic_sender: event-handler operations with safe / unsafe callbacks
+// ---------------------------------------------------------------------------
+// One round = one operation whose handler (a) registers a safe or an unsafe callback in start, or completes inline, or
+// requests stop on its own receiver's source from inside the start handler; (b) on the callback event completes with a
+// value or requests stop from inside the callback handler; (c) on the stop event completes with done or ignores it.
+// The callback is fired from helper thread 1 (a second, late, firing of a *safe* callback follows from the main thread
+// after completion and must be a no-op), stop is requested from helper thread 2, start() runs on the main thread.
+// Monitors: the receiver is completed exactly once and never from a frame nested inside the operation's own handler; the
+// stop handler runs at most once and never after a completion was delivered; the heap operation state is freed inside
+// the completion in "fic" rounds, so any later touch is an ASan report.
+struct bctl {
+  unifex::inplace_stop_source src;
+  std::atomic<int> result{R_PENDING};
+  std::atomic<int> completions{0}, stop_hooks{0}, callbacks{0};
+  std::atomic<int> handler_depth{0};
+  std::atomic<uint64_t> handler_thread{0};
+  int start_action = 0, cb_action = 0, stop_action = 0;
+  std::function<void()> fire;
+  bool fire_is_safe = true;
+  void* mem = nullptr;
+  void (*destroy)(void*) = nullptr;
+  bool fic = false;
+};
+inline uint64_t tid_now() {
+  thread_local uint64_t id = (uint64_t)syscall(SYS_gettid);
+  return id;
+}
+struct handler_frame {
+  bctl* c;
+  explicit handler_frame(bctl* c_) : c(c_) {
+    c->handler_thread.store(tid_now(), std::memory_order_relaxed);
+    c->handler_depth.fetch_add(1, std::memory_order_acq_rel);
+  }
+  ~handler_frame() { c->handler_depth.fetch_sub(1, std::memory_order_acq_rel); }
+};
+struct brcv {
+  bctl* c;
+  void complete(int r) noexcept {
+    bctl* ctl = c;
+    if (ctl->completions.fetch_add(1, std::memory_order_acq_rel) != 0) {
+      violation("C19:basic:receiver-completed-twice", "start_action %d cb_action %d stop_action %d", ctl->start_action,
+                ctl->cb_action, ctl->stop_action);
+      return;
+    }
+    if (ctl->handler_depth.load(std::memory_order_acquire) > 0 && ctl->handler_thread.load() == tid_now())
+      violation("C19:basic:receiver-completed-inside-the-operations-own-handler",
+                "completion %d delivered from a frame nested in the handler (start_action %d cb_action %d): the outer frame "
+                "goes on using the operation state", r, ctl->start_action, ctl->cb_action);
+    if (ctl->fic) {
+      void* m = ctl->mem;
+      ctl->destroy(m);
+      std::free(m);
+    }
+    ctl->result.store(r, std::memory_order_release);
+  }
+  void set_value(int) noexcept { complete(R_VALUE); }
+  template <class E>
+  void set_error(E&&) noexcept {
+    complete(R_ERROR);
+  }
+  void set_done() noexcept { complete(R_DONE); }
+  friend unifex::inplace_stop_token tag_invoke(unifex::tag_t<unifex::get_stop_token>, const brcv& r) noexcept {
+    return r.c->src.get_token();
+  }
+};
+struct bstats {
+  long rounds = 0, value = 0, done = 0, stop_hook = 0, nested_stop = 0, late_safe_noop = 0, inline_complete = 0, unsafe = 0;
+};
+
+void basic_round(rng& r, helper& h1, helper& h2, bstats& st, int fic_mode) {
+  auto c = std::make_unique<bctl>();
+  bctl* ctl = c.get();
+  ctl->start_action = (int)r.below(5);  // 0,1 safe cb; 2 unsafe cb; 3 inline value; 4 stop requested from the start handler
+  ctl->cb_action = (int)r.below(3);     // 0,1 value; 2 stop requested from the callback handler
+  ctl->stop_action = r.chance(1, 4) ? 1 : 0;  // 1: ignore the stop request (natural completion only)
+  if (ctl->start_action == 4 || ctl->cb_action == 2)
+    ctl->stop_action = 0;  // a nested stop request must lead to completion
+  if (ctl->start_action == 2)
+    ctl->cb_action = 0, ctl->stop_action = 1;  // unsafe callback: fired exactly once, nothing else completes, so that it never arrives late
+  bool want_fic = fic_mode != 0 && r.chance(1, 2);
+  auto snd = unifex::create_basic_sender<int>([ctl](auto event, auto& op) noexcept {
+    if constexpr (event.is_start) {
+      handler_frame f(ctl);
+      switch (ctl->start_action) {
+        case 0:
+        case 1: ctl->fire = safe_callback<>(op); break;
+        case 2:
+          ctl->fire = unsafe_callback<>(op);
+          ctl->fire_is_safe = false;
+          break;
+        case 3: op.set_value(1); break;
+        case 4: ctl->src.request_stop(); break;
+      }
+    } else if constexpr (event.is_callback) {
+      handler_frame f(ctl);
+      ctl->callbacks.fetch_add(1, std::memory_order_relaxed);
+      if (ctl->cb_action == 2)
+        ctl->src.request_stop();
+      else
+        op.set_value(7);
+    } else if constexpr (event.is_stop) {
+      handler_frame f(ctl);
+      if (ctl->stop_hooks.fetch_add(1, std::memory_order_acq_rel) != 0)
+        violation("C19:basic:stop-handler-ran-twice", "start_action %d cb_action %d", ctl->start_action, ctl->cb_action);
+      if (ctl->completions.load(std::memory_order_acquire) != 0)
+        violation("C19:basic:stop-handler-ran-after-completion", "start_action %d cb_action %d", ctl->start_action,
+                  ctl->cb_action);
+      if (ctl->stop_action == 0)
+        op.set_done();
+    }
+  });
+  using op_t = decltype(unifex::connect(std::move(snd), brcv{ctl}));
+  void* mem = std::malloc(sizeof(op_t));
+  ctl->mem = mem;
+  ctl->destroy = [](void* m) { static_cast<op_t*>(m)->~op_t(); };
+  op_t* op = new (mem) op_t(unifex::connect(std::move(snd), brcv{ctl}));
+  std::atomic<bool> started{false};
+  int d1 = (int)r.below(300), d2 = (int)r.below(300);
+  bool will_stop = ctl->stop_action == 0 && ctl->start_action != 3 && r.chance(2, 3);
+  bool will_fire = ctl->start_action <= 2;
+  if (ctl->stop_action == 1 && ctl->start_action <= 1 && !will_fire)
+    will_fire = true;
+  // free-in-completion: fic=1 only in rounds with a single asynchronous party; fic=2 also when a safe callback races with
+  // a stop request (the regime of the recorded finding: a safe callback that already holds its weak reference enters the
+  // operation while the other party completes and the receiver destroys it)
+  ctl->fic = want_fic && (fic_mode >= 2 || !(will_fire && will_stop));
+  if (will_fire)
+    h1.launch([&, d1] {
+      while (!started.load(std::memory_order_acquire))
+        sched_yield();
+      for (volatile int i = 0; i < d1; ++i) {
+      }
+      if (ctl->fire)  // (not set when the stop request preceded start(): the start handler never ran)
+        ctl->fire();
+    });
+  if (will_stop)
+    h2.launch([&, d2] {
+      // (may run before, during or after start())
+      for (volatile int i = 0; i < d2; ++i) {
+      }
+      ctl->src.request_stop();
+    });
+  unifex::start(*op);
+  started.store(true, std::memory_order_release);
+  wait_for(ctl->result, "C19:basic:never-completed", "create_basic_sender operation");
+  if (will_fire)
+    h1.wait();
+  if (will_stop)
+    h2.wait();
+  // a late firing of a safe callback is a no-op
+  if (will_fire && ctl->fire_is_safe && ctl->fire) {
+    int before = ctl->callbacks.load();
+    ctl->fire();
+    if (ctl->callbacks.load() != before || ctl->completions.load() != 1)
+      violation("C19:basic:late-safe-callback-was-not-a-no-op", "callbacks %d->%d completions %d", before,
+                ctl->callbacks.load(), ctl->completions.load());
+    ++st.late_safe_noop;
+  }
+  ctl->fire = nullptr;
+  if (!ctl->fic) {
+    op->~op_t();
+    std::free(mem);
+  }
+  if (ctl->completions.load() != 1)
+    violation("C19:basic:receiver-completed-twice", "completions=%d", ctl->completions.load());
+  ++st.rounds;
+  int res = ctl->result.load();
+  st.value += res == R_VALUE;
+  st.done += res == R_DONE;
+  st.stop_hook += ctl->stop_hooks.load();
+  st.nested_stop += (ctl->start_action == 4 || (ctl->cb_action == 2 && ctl->callbacks.load() > 0));
+  st.inline_complete += ctl->start_action == 3;
+  st.unsafe += ctl->start_action == 2;
+}
+
 }  // namespace
 
 int main(int argc, char** argv) {
@@ -585,6 +764,19 @@ int main(int argc, char** argv) {
     dump("cancellable", st);
     dump("cancellable_stops_early", st2);
     stat_add("rounds_total", st.rounds + st2.rounds);
+  } else if (a.mode == "basic") {
+    bstats st;
+    for (long i = 0; i < a.iters; ++i)
+      basic_round(r, h1, h2, st, (int)a.geti("fic", 1));
+    stat_add("basic_rounds", st.rounds);
+    stat_add("basic_outcome_value", st.value);
+    stat_add("basic_outcome_done", st.done);
+    stat_add("basic_stop_handler_ran", st.stop_hook);
+    stat_add("basic_stop_requested_from_own_handler", st.nested_stop);
+    stat_add("basic_late_safe_callback_noop", st.late_safe_noop);
+    stat_add("basic_inline_completion", st.inline_complete);
+    stat_add("basic_unsafe_callback_rounds", st.unsafe);
+    stat_add("rounds_total", st.rounds);
   } else if (a.mode == "detach") {
     dstats st;
     for (long i = 0; i < a.iters; ++i)
